@@ -120,6 +120,63 @@ struct Wrap3<D> {
     inner: D,
 }
 
+/// A Serializer that only counts: for every struct it compares the number of members announced to
+/// `serialize_struct` with the number of members written (formats with length prefixes - MessagePack,
+/// CBOR, bincode - write the announced number into the stream and cut off or misread the rest).
+struct LenCheck<'a>(&'a std::cell::RefCell<Vec<String>>);
+struct LenStruct<'a> {
+    log: &'a std::cell::RefCell<Vec<String>>,
+    name: &'static str,
+    announced: usize,
+    written: usize,
+}
+impl<'a> serde::ser::SerializeStruct for LenStruct<'a> {
+    type Ok = ();
+    type Error = serde::de::value::Error;
+    fn serialize_field<T: ?Sized + Serialize>(&mut self, _key: &'static str, value: &T) -> Result<(), Self::Error> {
+        self.written += 1;
+        value.serialize(LenCheck(self.log))
+    }
+    fn end(self) -> Result<(), Self::Error> {
+        if self.announced != self.written {
+            self.log.borrow_mut().push(format!("{} announces {} members and writes {}", self.name, self.announced, self.written));
+        }
+        Ok(())
+    }
+}
+macro_rules! len_prims {
+    ($($m:ident: $t:ty),*) => { $(fn $m(self, _v: $t) -> Result<(), Self::Error> { Ok(()) })* };
+}
+impl<'a> serde::Serializer for LenCheck<'a> {
+    type Ok = ();
+    type Error = serde::de::value::Error;
+    type SerializeSeq = serde::ser::Impossible<(), Self::Error>;
+    type SerializeTuple = serde::ser::Impossible<(), Self::Error>;
+    type SerializeTupleStruct = serde::ser::Impossible<(), Self::Error>;
+    type SerializeTupleVariant = serde::ser::Impossible<(), Self::Error>;
+    type SerializeMap = serde::ser::Impossible<(), Self::Error>;
+    type SerializeStruct = LenStruct<'a>;
+    type SerializeStructVariant = serde::ser::Impossible<(), Self::Error>;
+    len_prims!(serialize_bool: bool, serialize_i8: i8, serialize_i16: i16, serialize_i32: i32, serialize_i64: i64, serialize_u8: u8, serialize_u16: u16, serialize_u32: u32,
+               serialize_u64: u64, serialize_f32: f32, serialize_f64: f64, serialize_char: char, serialize_str: &str, serialize_bytes: &[u8]);
+    fn serialize_none(self) -> Result<(), Self::Error> { Ok(()) }
+    fn serialize_some<T: ?Sized + Serialize>(self, v: &T) -> Result<(), Self::Error> { v.serialize(self) }
+    fn serialize_unit(self) -> Result<(), Self::Error> { Ok(()) }
+    fn serialize_unit_struct(self, _n: &'static str) -> Result<(), Self::Error> { Ok(()) }
+    fn serialize_unit_variant(self, _n: &'static str, _i: u32, _v: &'static str) -> Result<(), Self::Error> { Ok(()) }
+    fn serialize_newtype_struct<T: ?Sized + Serialize>(self, _n: &'static str, v: &T) -> Result<(), Self::Error> { v.serialize(self) }
+    fn serialize_newtype_variant<T: ?Sized + Serialize>(self, _n: &'static str, _i: u32, _v: &'static str, v: &T) -> Result<(), Self::Error> { v.serialize(self) }
+    fn serialize_seq(self, _l: Option<usize>) -> Result<Self::SerializeSeq, Self::Error> { Err(serde::ser::Error::custom("sequence")) }
+    fn serialize_tuple(self, _l: usize) -> Result<Self::SerializeTuple, Self::Error> { Err(serde::ser::Error::custom("tuple")) }
+    fn serialize_tuple_struct(self, _n: &'static str, _l: usize) -> Result<Self::SerializeTupleStruct, Self::Error> { Err(serde::ser::Error::custom("tuple struct")) }
+    fn serialize_tuple_variant(self, _n: &'static str, _i: u32, _v: &'static str, _l: usize) -> Result<Self::SerializeTupleVariant, Self::Error> { Err(serde::ser::Error::custom("tuple variant")) }
+    fn serialize_map(self, _l: Option<usize>) -> Result<Self::SerializeMap, Self::Error> { Err(serde::ser::Error::custom("map")) }
+    fn serialize_struct(self, name: &'static str, len: usize) -> Result<Self::SerializeStruct, Self::Error> {
+        Ok(LenStruct { log: self.0, name, announced: len, written: 0 })
+    }
+    fn serialize_struct_variant(self, _n: &'static str, _i: u32, _v: &'static str, _l: usize) -> Result<Self::SerializeStructVariant, Self::Error> { Err(serde::ser::Error::custom("struct variant")) }
+}
+
 /// records the struct name and field list a Deserialize implementation announces
 struct FieldRecorder<'a>(&'a mut Option<(&'static str, Vec<&'static str>)>);
 impl<'de, 'a> serde::Deserializer<'de> for FieldRecorder<'a> {
@@ -175,6 +232,16 @@ fn check_type<F: Flt + Serialize + DeserializeOwned, D: Subject<F> + Serialize +
             let t = s.split('.').next().unwrap().to_string();
             if !top.contains(&t) {
                 top.push(t);
+            }
+        }
+        // the member count announced to the Serializer is the number of members written
+        {
+            let log = std::cell::RefCell::new(Vec::new());
+            let probe = D::build(d, &Parts { vals: (0..n).map(|i| F::from64(part_value(i, 1))).collect(), present: vec![] });
+            let r = probe.serialize(LenCheck(&log));
+            st.evaluations += 1;
+            if r.is_err() || !log.borrow().is_empty() {
+                st.violation(Violation { sig: format!("serde {tn} announced-length"), case: json!({"type": tn}), what: format!("serialize: {:?} {:?}", r.err().map(|e| e.to_string()), log.borrow()) });
             }
         }
         let mut rec = None;
@@ -390,7 +457,7 @@ fn main() {
         mode: cli.mode,
         seed: cli.seed,
         start,
-        rule: "Dual, Dual2, Dual3, HyperDual, HyperHyperDual over f32 and f64 and the nestings Dual<Dual>, Dual<Dual<Dual>>, Dual2<Dual>, Dual3<HyperDual>, HyperDual<Dual2>, HyperHyperDual<Dual> x parts from {0, -0, 1.5, -2.25, 1/3, pi, smallest denormal, MAX, -MIN_POSITIVE, 0.1, 0.1f32 and -1e15f32 widened, three single-precision values that need nine digits}: full product for <= 4 parts, each part sweeping the alphabet with pairwise distinct other parts beyond; through serde_json::Value (bit-exact), through JSON text for every value whose bare float survives the text format bit for bit, with the field order read off the serialized text, embedded in a user struct with #[serde(flatten)], and with the field list announced to the Deserializer compared with the stored members; the whole enumeration (per-part sweeps) also in a fresh process that handles the single-precision types first. Non-trivial: every value.".into(),
+        rule: "Dual, Dual2, Dual3, HyperDual, HyperHyperDual over f32 and f64 and the nestings Dual<Dual>, Dual<Dual<Dual>>, Dual2<Dual>, Dual3<HyperDual>, HyperDual<Dual2>, HyperHyperDual<Dual> x parts from {0, -0, 1.5, -2.25, 1/3, pi, smallest denormal, MAX, -MIN_POSITIVE, 0.1, 0.1f32 and -1e15f32 widened, three single-precision values that need nine digits}: full product for <= 4 parts, each part sweeping the alphabet with pairwise distinct other parts beyond; through serde_json::Value (bit-exact), through JSON text for every value whose bare float survives the text format bit for bit, with the field order read off the serialized text, embedded in a user struct with #[serde(flatten)], with the field list announced to the Deserializer and the member count announced to the Serializer compared with the stored members; the whole enumeration (per-part sweeps) also in a fresh process that handles the single-precision types first. Non-trivial: every value.".into(),
         assumptions: vec!["serde_json::Value holds numbers as f64, so f32 and f64 parts are represented exactly; JSON text is only used for values it represents exactly, decided on the bare float".into()],
         extra: json!({}),
         exhaustive: true,
